@@ -7,6 +7,7 @@ model) on the same operation sequences; oracle = the extracted reference DOM (xm
 import itertools
 import json
 import os
+import re
 import subprocess
 import sys
 import time
@@ -30,9 +31,16 @@ W_CLONE = "1 1 ; cr 0 e %s - ; cr 0 t - %s ; ac 1 2 ; cl 2 0 ; ac 1 3" % (hx("a"
 W_FRAGDOC = "1 1 ; cr 0 f - - ; cr 0 e %s - ; cr 0 e %s - ; ac 1 2 ; ac 1 3 ; ac 0 1" % (hx("a"), hx("b"))   # F27
 W_STALE = "1 1 ; cr 0 e %s - ; ac 0 1 ; rp 0 1 1 ; cr 0 e %s - ; ac 0 2" % (hx("a"), hx("b"))                 # F28
 W_NORM = "1 1 ; cr 0 e %s - ; cr 0 t - - ; ac 1 2 ; nz 1" % hx("a")                                            # F29
-WITNESSES = [("F18", W_SELF), ("F18", W_SELF2), ("F26", W_CLONE), ("F27", W_FRAGDOC), ("F28", W_STALE), ("F29", W_NORM)]
+W_RNAME = "1 1 ; cr 0 e %s - ; rn 0 1 - %s" % (hx("a"), hx("1a"))                                            # F30
+W_RNSET = "1 1 ; cr 0 e %s - ; rn 0 1 %s %s ; rn 0 2 %s %s" % (hx("a"), hx("u"), hx("p:b"), hx("u"), hx("q:"))   # F31
+WITNESSES = [("F18", W_SELF), ("F18", W_SELF2), ("F26", W_CLONE), ("F27", W_FRAGDOC), ("F28", W_STALE), ("F29", W_NORM),
+             ("F30", W_RNAME), ("F31", W_RNSET)]
 
 NAMES = ["a", "b", "c", "a:b", "x-1", "_q"]
+QNAMES = ["a", "b", "p:b2", "q:c", "xml:a", "xmlns", "xmlns:p", "a:b:c", ":a", "p:", "1a", "p:1", "", "a b"]
+XML_URI = "http://www.w3.org/XML/1998/namespace"
+XMLNS_URI = "http://www.w3.org/2000/xmlns/"
+NSS = ["", "", "u", "u", "urn:x", XML_URI, XMLNS_URI]
 BADNAMES = ["", "1a", "a b", "-x"]
 DATA = ["", "x", "xy", " ", " \n", "hello", "a]]>b", "zzzzzzzz"]
 
@@ -65,12 +73,94 @@ def gen_exhaustive(ctx, cases):
                 cases.append(("exh-%d" % ln, pre + "".join(" ; " + o for o in seq)))
 
 
+def gen_fragments(ctx, cases):
+    """DocumentFragments whose children are legal / illegal for the target at every position, inserted by
+    appendChild / insertBefore / replaceChild into a Document (empty, with a root), an Attr, an Element and a Text"""
+    kinds = {"E": "cr 0 e %s -" % hx("k"), "T": "cr 0 t - %s" % hx("hello"), "W": "cr 0 t - %s" % hx(" "),
+             "C": "cr 0 c - %s" % hx("c"), "P": "cr 0 p %s %s" % (hx("pi"), hx("d")), "S": "cr 0 s - %s" % hx("cd"),
+             "R": "cr 0 r %s -" % hx("er"), "A": "cr 0 a %s -" % hx("at"), "F": "cr 0 f - -"}
+    thorough = ctx.tier == "thorough"
+    maxlen = 3 if not thorough else 4
+    # fixed prefix: 1 = root element e1 (in doc 0), 2 = comment child of doc 0, 3 = attr with a text child 4,
+    # 5 = detached element with child 6, 7 = text, 8 = the fragment; doc 1 is empty
+    pre = ["cr 0 e %s -" % hx("root"), "cr 0 c - %s" % hx("c0"), "cr 0 a %s -" % hx("at"), "cr 0 t - %s" % hx("v"),
+           "cr 0 e %s -" % hx("d"), "cr 0 c - %s" % hx("c1"), "cr 0 t - %s" % hx("leaf"), "cr 0 f - -",
+           "ac 0 1", "ac 0 2", "ac 3 4", "ac 5 6"]
+    # fragment for the empty document 1 must be created by document 1
+    alphabet = "ETWCPSR" if not thorough else "ETWCPSRAF"
+    for n in range(1, maxlen + 1):
+        for combo in itertools.product(alphabet, repeat=n):
+            for target, ref in ((0, 2), (3, 4), (5, 6), (7, None), (1, None)):
+                ops = list(pre)
+                for k in combo:
+                    ops.append(kinds[k])
+                ops += ["ac 8 %d" % (9 + i) for i in range(n)]
+                for meth in ("ac", "ib", "rp"):
+                    if meth != "ac" and ref is None:
+                        continue
+                    last = "ac %d 8" % target if meth == "ac" else "%s %d 8 %d" % (meth, target, ref)
+                    cases.append(("frag-%s-%d" % (meth, target), "2 0 ; " + " ; ".join(ops + [last])))
+            # the same fragment built in document 1 and appended to the empty document 1
+            ops = ["cr 1 f - -"] + [kinds[k].replace("cr 0", "cr 1") for k in combo] + ["ac 2 %d" % (3 + i) for i in range(n)] + ["ac 1 2"]
+            cases.append(("frag-ac-emptydoc", "2 0 ; " + " ; ".join(ops)))
+
+
+def big_counts(length, offset):
+    r = length - offset
+    vals = [0, 1, r - 1, r, r + 1, length, length + 100, 4095, 4096, 5000, 2 ** 32 - 1, 2 ** 32, 2 ** 63,
+            2 ** 64 - offset - 1, 2 ** 64 - offset, 2 ** 64 - 1]
+    return sorted(set(v for v in vals if 0 <= v < 2 ** 64))
+
+
+def gen_counts(ctx, cases):
+    """character data offsets/counts around the end of the data and around the XMLSize_t wrap-around"""
+    for data in ("abcdef", "", "x"):
+        L = len(data)
+        for off in sorted(set([0, 1, L // 2, L - 1, L, L + 1, 2 ** 32, 2 ** 64 - 1])):
+            if off < 0:
+                continue
+            for cnt in big_counts(L, min(off, L)):
+                for t in ("t", "c", "s"):
+                    pre = "1 1 ; cr 0 %s - %s" % (t, hx(data))
+                    cases.append(("count-dd", pre + " ; dd 1 %d %d" % (off, cnt)))
+                    cases.append(("count-rd", pre + " ; rd 1 %d %d %s" % (off, cnt, hx("ZZ"))))
+                    cases.append(("count-ss", pre + " ; ss 1 %d %d ; dd 1 0 0" % (off, cnt)))
+            for t in ("t", "s"):
+                pre = "1 1 ; cr 0 e %s - ; cr 0 %s - %s ; ac 1 2" % (hx("e"), t, hx(data))
+                cases.append(("count-sp", pre + " ; sp 2 %d" % off))
+                cases.append(("count-id", pre + " ; id 2 %d %s" % (off, hx("Q"))))
+
+
+def gen_rename(ctx, cases):
+    """renameNode of elements (first / middle / last / only child, root, detached; with children and attributes) and
+    of detached attributes, namespace null / non-null, legal and illegal qualified names, twice in a row"""
+    pre = ["cr 0 e %s -" % hx("r"), "ac 0 2", "cr 0 e %s -" % hx("a"), "cr 0 e %s -" % hx("b"), "cr 0 e %s -" % hx("c"),
+           "ac 2 3", "ac 2 4", "ac 2 5", "cr 0 t - %s" % hx("x"), "cr 0 c - %s" % hx("y"), "ac 4 6", "ac 4 7",
+           "sa 4 %s %s" % (hx("k"), hx("v")), "sa 4 %s %s" % (hx("j"), hx("w")), "cr 0 e %s -" % hx("det"),
+           "cr 0 a %s -" % hx("at"), "cr 0 t - %s" % hx("av"), "ac 9 10", "cr 1 e %s -" % hx("other")]
+    # nodes: 2 root, 3/4/5 first/middle/last children of 2, 4 has children 6,7 and attributes, 8 detached, 9 attr(10), 11 other doc
+    targets = [2, 3, 4, 5, 8, 9, 11, 6, 0]
+    thorough = ctx.tier == "thorough"
+    for n in targets:
+        for ns in ["", "u", XML_URI, XMLNS_URI]:
+            for q in QNAMES:
+                cases.append(("rename-1", "2 0 ; " + " ; ".join(pre + ["rn 0 %d %s %s" % (n, hx(ns), hx(q))])))
+                if q in ("p:b2", "a") and ns in ("u", ""):
+                    # rename the result again (it may be the new node 12), and mutate around it
+                    for ns2 in ["", "u"]:
+                        for q2 in (QNAMES if thorough else ["b", "p:z", "q:", "1a", "xml:a"]):
+                            for who in (n, 12):
+                                cases.append(("rename-2", "2 0 ; " + " ; ".join(
+                                    pre + ["rn 0 %d %s %s" % (n, hx(ns), hx(q)), "rn 0 %d %s %s" % (who, hx(ns2), hx(q2)),
+                                           "ac 2 %d" % n, "rm 2 4"])))
+
+
 def rand_op(rng):
     r = rng.random
     R = lambda: "%%%d" % rng.randrange(1 << 20)
     k = rng.random()
     if k < 0.16:
-        t = rng.choice("eeeettttscpfr")
+        t = rng.choice("eeeettttscpfra")
         nm = rng.choice(NAMES) if r() < 0.93 else rng.choice(BADNAMES)
         return "cr %d %s %s %s" % (rng.randrange(3), t, hx(nm), hx(rng.choice(DATA)))
     if k < 0.34:
@@ -101,17 +191,19 @@ def rand_op(rng):
     if k < 0.86:
         return "id %s %d %s" % (R(), rng.randrange(8), hx(rng.choice(DATA)))
     if k < 0.89:
-        return "dd %s %d %d" % (R(), rng.randrange(8), rng.choice([0, 1, 2, 5, 40]))
+        return "dd %s %d %d" % (R(), rng.randrange(8), rng.choice([0, 1, 2, 5, 40, 2 ** 32, 2 ** 64 - 1, 2 ** 64 - 2]))
     if k < 0.92:
-        return "rd %s %d %d %s" % (R(), rng.randrange(8), rng.choice([0, 1, 2, 5, 40]), hx(rng.choice(DATA)))
+        return "rd %s %d %d %s" % (R(), rng.randrange(8), rng.choice([0, 1, 2, 5, 40, 2 ** 63, 2 ** 64 - 1, 2 ** 64 - 3]), hx(rng.choice(DATA)))
     if k < 0.94:
-        return "ss %s %d %d" % (R(), rng.randrange(8), rng.choice([0, 1, 3, 40]))
+        return "ss %s %d %d" % (R(), rng.randrange(8), rng.choice([0, 1, 3, 40, 4096, 2 ** 64 - 1]))
     if k < 0.97:
         nm = rng.choice(NAMES) if r() < 0.9 else rng.choice(BADNAMES)
         return "sa %s %s %s" % (R(), hx(nm), hx(rng.choice(DATA)))
-    if k < 0.985:
+    if k < 0.98:
         return "ra %s %s" % (R(), hx(rng.choice(NAMES)))
-    return "ga %s %s" % (R(), hx(rng.choice(NAMES)))
+    if k < 0.985:
+        return "ga %s %s" % (R(), hx(rng.choice(NAMES)))
+    return "rn %d %s %s %s" % (rng.randrange(3), R(), hx(rng.choice(NSS)), hx(rng.choice(QNAMES)))
 
 
 def gen_random(ctx, cases):
@@ -229,6 +321,26 @@ def run(ctx):
                                 "model_repaired": models["m11"][widx], "spec": spec_w[widx], "what": what,
                                 "fix": "fixes/C13-insert-self.patch" if fid == "F18" else "fixes/C13-clone-firstchild.patch"})
 
+    # F32: substringData with a count beyond the end writes the terminator at newString[count] (out of bounds; a count
+    # of 2^32-1 faults).  Probed in a process of its own; while the defect is present counts >= 4096 are clipped in the
+    # sweeps (exactly the class: substringData, count >= 4096 > length) so that the rest of the check still runs.
+    W_SUBSTR = "1 1 ; cr 0 t - %s ; ss 1 0 4294967295 ; dd 1 0 0" % hx("abcdef")
+    rcS, outS, errS = run_bin(xh, [], [W_SUBSTR])
+    f32_present = rcS != 0 or not outS
+    ctx.coverage["defect_switches_detected"]["fix_substring(F32)"] = not f32_present
+    if f32_present:
+        what = ("substringData(offset, count) with count beyond the end of the data writes the string terminator at "
+                "newString[count], outside the 4096-unit stack buffer: memory corruption; count = 2^32-1 faults (rc=%d)" % rcS)
+        if ctx.find_known("F32"):
+            ctx.known_finding("F32", what + " (witness `%s`)" % W_SUBSTR)
+        else:
+            ctx.violation("F32", {"request": W_SUBSTR, "impl": "process died rc=%d" % rcS, "stderr": errS[-500:],
+                                  "model_repaired": run_bin(xm, ["m11"], [W_SUBSTR])[1][0][:500], "what": what,
+                                  "fix": "fixes/C13-substring-count.patch"})
+
+    def clip_ss(line):
+        return re.sub(r"(; ss \S+ \d+ )(\d+)", lambda m: m.group(1) + str(min(int(m.group(2)), 4095)), line)
+
     # ---- 2. cases
     cases = []
     if ctx.replay:
@@ -237,7 +349,12 @@ def run(ctx):
     else:
         cases += [("witness-" + f, w) for f, w in WITNESSES]
         gen_exhaustive(ctx, cases)
+        gen_fragments(ctx, cases)
+        gen_counts(ctx, cases)
+        gen_rename(ctx, cases)
         gen_random(ctx, cases)
+    if f32_present:
+        cases = [(k, clip_ss(l)) for k, l in cases]
     lines = [c[1] for c in cases]
     impl, crashes = run_impl(ctx, xh, lines)
     rc2, model, err2 = run_bin(xm, [mode], lines)
@@ -316,8 +433,13 @@ def run(ctx):
         f = dict(x.split("=", 1) for x in c.split(" ")[3:] if "=" in x)
         opn = c.split(" ")[2]
         cls = None
-        if opn in ("ac", "ib", "rp") and f.get("types") == "9/11" and f.get("model") == "e3" and f.get("unchanged") == "false":
-            cls = "F27"
+        if opn in ("ac", "ib", "rp") and f.get("f27") == "true" and f.get("model") == "e3" and f.get("unchanged") == "false":
+            cls = "F27"     # exactly: all children legal for the Document, >= 2 root elements would result
+        elif opn == "rn" and f.get("rn", "").startswith("badname") and f.get("model", "").startswith("n") and f.get("spec") == "e5":
+            cls = "F30"
+        elif opn == "rn" and ",nsclass," in f.get("rn", "") and f.get("model") == "e14" and f.get("unchanged") == "false" \
+                and f.get("spec") in ("e14", "e5"):
+            cls = "F31"
         elif opn == "nz":
             cls = "F29"
         elif f.get("stale_docel") == "true" and opn in ("ac", "ib", "rp") and f.get("types", "").startswith("9/"):
@@ -339,6 +461,11 @@ def run(ctx):
         "F28": "Document.replaceChild(root, root) removes the root but leaves the cached documentElement pointing at it: the "
                "document then refuses every new root element with HIERARCHY_REQUEST_ERR",
         "F29": "normalize() merges adjacent Text nodes but does not remove empty Text nodes (DOM Core Node.normalize)",
+        "F30": "renameNode does not check the new name when the node keeps its implementation class (no namespace for a "
+               "Level-1 node, any rename of a namespace-aware node without a colon): an invalid XML name is accepted instead "
+               "of INVALID_CHARACTER_ERR",
+        "F31": "renameNode of a namespace-aware element/attribute assigns the new name BEFORE the namespace checks: "
+               "NAMESPACE_ERR is raised but nodeName has already changed (exception AND changed node)",
     }
     widx = {f: n for n, (f, _) in enumerate(WITNESSES)}
     for fid, ks in sorted(classes.items()):
